@@ -158,6 +158,8 @@ type LinkCfg struct {
 type WorldCfg struct {
 	// BasePath of every top-level store (default ["root"]). Deeper paths exercise path slices with spare capacity.
 	BasePath []string   `json:"basePath,omitempty"`
+	// LazyBuckets: the entity buckets are not created up front; a store in which nothing was ever created has none
+	LazyBuckets bool `json:"lazyBuckets,omitempty"`
 	Stores   []StoreCfg `json:"stores"`
 	Children []ChildCfg `json:"children,omitempty"`
 	Links    []LinkCfg  `json:"links,omitempty"`
@@ -357,7 +359,9 @@ func NewWorld(cfg WorldCfg) (*World, error) {
 		for _, sc := range cfg.Stores {
 			w.Stores[sc.Name].InitializeIndexes(ctx.Tx(), holder)
 			// make sure the entities bucket exists so that reads on an empty store behave uniformly
-			boltz.GetOrCreatePath(ctx.Tx(), cfg.PathOf(sc.Name)...)
+			if !cfg.LazyBuckets {
+				boltz.GetOrCreatePath(ctx.Tx(), cfg.PathOf(sc.Name)...)
+			}
 		}
 		for _, cc := range cfg.Children {
 			w.Kids[cc.Name].InitializeIndexes(ctx.Tx(), holder)
